@@ -101,7 +101,11 @@ func hdrRun(in hdrInput) (hdrObs, [][]byte) {
 }
 
 var hostile = []string{"1.2", "true", "~", "null", " leading", "trailing ", "a: b", "# not a comment", "flir", "lepton3", "lepton3.5", "boson", "1.2.3", "0x10", "010",
-	"émoji ✓", "-", "- item", "{x}", "[1]", "'quoted'", "\"dq\"", "yes", "No", "1e3", ".5", "multi word name", "", "a#b", "x:y", "|", ">", "*", "&a", "!tag", "%", "@", "`"}
+	"émoji ✓", "-", "- item", "{x}", "[1]", "'quoted'", "\"dq\"", "yes", "No", "1e3", ".5", "multi word name", "", "a#b", "x:y", "|", ">", "*", "&a", "!tag", "%", "@", "`",
+	// long values (the encoder folds them onto indented continuation lines) and values with a line break (literal blocks)
+	"firmware build 2021-11-09 for the thermal camera module with extended telemetry and a rather long descriptive name",
+	"two\nlines", "indented\n  second line", "trailing newline\n",
+	"averyveryveryveryveryveryveryveryveryveryveryveryveryveryveryveryveryveryveryveryverylongtokenwithoutanyspaces"}
 
 func hdrGen(rng *rand.Rand, i int) hdrInput {
 	var in hdrInput
